@@ -71,7 +71,7 @@ mut('C07-empty-resource-separator-skipped', (P + 'stream.py', "        for res i
 # ---- C09
 mut('C09-hash-before-finalize', (P + 'dumpers/file_dumper.py', "        writer.finalize_file()\n\n        # Get resource descriptor", "        prehash = FileDumper.hash_handler(temp_file).hexdigest() if self.resource_hash else None\n        temp_file.seek(0, 2)\n        writer.finalize_file()\n\n        # Get resource descriptor"),
     (P + 'dumpers/file_dumper.py', "            DumperBase.set_attr(resource_descriptor, self.resource_hash, hasher.hexdigest())\n", "            DumperBase.set_attr(resource_descriptor, self.resource_hash, prehash)\n"))
-mut('C09-bytes-as-chars', (P + 'dumpers/file_dumper.py', "        # File size:\n        filesize = temp_file.tell()\n", "        # File size:\n        temp_file.flush()\n        temp_file.seek(0)\n        filesize = len(temp_file.read())\n        temp_file.seek(0, 2)\n"))
+mut('C09-bytes-as-chars', (P + 'dumpers/file_dumper.py', "        temp_file.seek(0, os.SEEK_END)\n        filesize = temp_file.tell()\n", "        temp_file.flush()\n        temp_file.seek(0)\n        filesize = len(temp_file.read())\n        temp_file.seek(0, 2)\n"))
 # ---- C11
 mut('C11-first-as-last', (P + 'join.py', "    'first': Aggregator(lambda curr, new:\n                        curr if curr is not None else new,", "    'first': Aggregator(lambda curr, new:\n                        new,"))
 mut('C11-missing-key-matches-empty', (P + 'join.py', "                try:\n                    extra = create_extra_by_key(key)\n                    db_keys_usage.set(key, True)\n                except KeyError:\n",
